@@ -16,7 +16,8 @@ def zero(e):
         r = sp.simplify(e)
         if r == 0:
             return True, r
-        r2 = sp.simplify(sp.powsimp(sp.expand_log(sp.powdenest(r, force=True), force=True), force=True))
+        # no `force=True` here: forcing positivity would identify |c| with c and hide the sign of the southern cone constants
+        r2 = sp.simplify(sp.powsimp(sp.expand_log(sp.powdenest(r))))
         return (r2 == 0), r2
     except Exception as ex:      # pragma: no cover
         return None, str(ex)
@@ -35,6 +36,10 @@ def run(fx, R, d):
         R.undecided('A1', 'LambertConverter::toLambert', 'forward map not readable as (x, y) with an isometric-latitude atom')
         return
     X, Y = sfor[0].ret.args
+    # locals the forward map may introduce (rho, theta ...) are replaced by their definitions; only the isometric latitude stays an atom
+    for _ in range(3):
+        sub_ = {S(k): v for k, v in rfor.atom_defs.items() if k != 'isolat'}
+        X, Y = X.subs(sub_), Y.subs(sub_)
     L = S('isolat')
     Ldef = rfor.atom_defs['isolat']
     D = n_ * (lon - lon0_)
